@@ -153,8 +153,12 @@ impl LocalHeader {
     }
 
     /// Get the BLTE data size (total size minus header).
+    ///
+    /// Returns 0 for a corrupt header whose `size_with_header` is smaller
+    /// than the header itself.
     pub const fn blte_size(&self) -> u32 {
-        self.size_with_header - LOCAL_HEADER_SIZE as u32
+        self.size_with_header
+            .saturating_sub(LOCAL_HEADER_SIZE as u32)
     }
 }
 
